@@ -38,6 +38,11 @@ def run(ctx):
     # after the projection only lines whose every remaining cell is a placeholder are dropped
     from .exporter_facts import check_nullish_tables
     check_nullish_tables(ctx, 'R5')
+    # the selection the caller gave is the selection the exporter sees: Generic.export hands its options object on as it is
+    from . import c14
+    ctx.alias = {'R2': 'R6'}
+    c14.r2_freshness(ctx)
+    ctx.alias = {}
 
 
 def r1b_body_loop(ctx):
